@@ -272,6 +272,16 @@ func fnRPopLPush(ctx *cmdContext, args map[string]any) (output respValue, err er
 	return
 }
 
+// the key a multi-key blocking pop was served from: the first element of its reply
+func servedKey(output respValue) string {
+	if reply, isArray := output.data.(respArray); isArray && len(reply) > 0 {
+		if key, isString := reply[0].data.(respBulkString); isString {
+			return string(key)
+		}
+	}
+	return ""
+}
+
 func blockOnListChange(ctx *cmdContext, keyName string, timeoutNs int64, op func() (output respValue)) (output respValue) {
 	return blockOnListChangeWorker(
 		ctx,
@@ -387,6 +397,12 @@ func blockOnListChangeWorker(
 		// list element probably exists and the operation will succeed
 		output = op()
 		if output.data != nil {
+			// A client waiting for several keys looks at them in order: woken by a push to one key it may
+			// have been served from an earlier one. The element that woke it is then still in its list,
+			// and the wake-up belongs to the next client waiting for that key.
+			if len(keyNames) > 1 && servedKey(output) != ws.wokenBy {
+				ctx.dsc.ds.passOnListWakeUp(ws.wokenBy)
+			}
 			return
 		}
 		// a different client obtained the list element before this client could, so try again:
